@@ -42,7 +42,8 @@ include!("extracted.rs");
 mod harness {
     use super::*;
 
-    fn quorum<const NP: usize, const LEN: usize, const RQ: u32>() {
+    fn quorum<const NP: usize, const LEN: usize, const RQ: u32>() { quorum_v::<NP, LEN, RQ, 3>() }
+    fn quorum_v<const NP: usize, const LEN: usize, const RQ: u32, const NV: u8>() {
         let npeers: usize = kani::any(); kani::assume(npeers <= NP);
         let max_out: u32 = kani::any(); kani::assume(max_out >= 1 && max_out <= RQ);   // required = ceil(max_out / 2)
         let required = ((max_out + 1) / 2) as usize;
@@ -56,7 +57,7 @@ mod harness {
                 let start: u32 = kani::any(); kani::assume(start < 1000);
                 let len: usize = kani::any(); kani::assume(len >= 1 && len <= LEN);
                 let mut v = Vec::new(); let mut j = 0;
-                while j < LEN { if j < len { let b: u8 = kani::any(); kani::assume(b < 3); v.push(Byte32(b)); } j += 1; }
+                while j < LEN { if j < len { let b: u8 = kani::any(); kani::assume(b < NV); v.push(Byte32(b)); } j += 1; }
                 starts[i] = start; vecs[i] = v;
             }
             i += 1;
@@ -115,6 +116,7 @@ mod harness {
         }
     }
     #[kani::proof] #[kani::unwind(7)] fn quorum_q() { quorum::<3, 3, 4>(); }
+    #[kani::proof] #[kani::unwind(7)] fn quorum_q2() { quorum_v::<3, 3, 4, 2>(); }
     #[kani::proof] #[kani::unwind(8)] fn quorum_t() { quorum::<4, 4, 6>(); }
 
     #[kani::proof]
